@@ -134,6 +134,56 @@ theorem stepQueue_consumes (bodies : List Body) (s : St) (j : Job) (rest : List 
     stepQueue bodies s = runJob bodies { s with queue := rest } j ∧ ({ s with queue := rest } : St).queue = rest :=
   ⟨stepQueue_takes_head bodies s j rest h, rfl⟩
 
+
+/-! ### the request queue of an async generator (ECMA-262 27.6.3): why the FIFO oracle of the check is the specification
+
+`AsyncGeneratorEnqueue` appends a request to [[AsyncGeneratorQueue]]; `AsyncGeneratorCompleteStep` removes the FIRST
+element and settles its promise; nothing else touches the queue. Whatever the generator body does in between — and
+however requests and completions interleave — the promises therefore settle in request order. -/
+
+inductive AgOp | request (id : Nat) | complete
+  deriving Repr, DecidableEq
+
+structure AgSt where
+  queue : List Nat := []       -- [[AsyncGeneratorQueue]], head first
+  requested : List Nat := []   -- every request ever made, in order
+  settled : List Nat := []     -- requests whose promise was settled, in order
+  deriving Repr
+
+def agStep (s : AgSt) : AgOp → AgSt
+  | .request id => { s with queue := s.queue ++ [id], requested := s.requested ++ [id] }
+  | .complete =>
+    match s.queue with
+    | [] => s                                   -- AsyncGeneratorCompleteStep asserts a non-empty queue: never called then
+    | id :: rest => { s with queue := rest, settled := s.settled ++ [id] }
+
+/-- for EVERY interleaving of requests and completions: what has settled, followed by what is still queued, is exactly
+    what was requested, in order — so the settled promises are a prefix of the requests -/
+theorem agen_fifo (ops : List AgOp) :
+    (ops.foldl agStep {}).settled ++ (ops.foldl agStep {}).queue = (ops.foldl agStep {}).requested := by
+  have gen : ∀ (ops : List AgOp) (s : AgSt), s.settled ++ s.queue = s.requested →
+      (ops.foldl agStep s).settled ++ (ops.foldl agStep s).queue = (ops.foldl agStep s).requested := by
+    intro ops
+    induction ops with
+    | nil => intro s h; exact h
+    | cons op ops ih =>
+      intro s h
+      apply ih
+      cases op with
+      | request id => simp only [agStep]; rw [← List.append_assoc, h]
+      | complete =>
+        simp only [agStep]
+        cases hq : s.queue with
+        | nil => simp only; rw [hq] at h; exact hq ▸ h
+        | cons id rest => simp only; rw [hq] at h; rw [List.append_assoc]; exact h
+  exact gen ops {} rfl
+
+theorem agen_settles_in_request_order (ops : List AgOp) :
+    (ops.foldl agStep {}).settled <+: (ops.foldl agStep {}).requested :=
+  ⟨(ops.foldl agStep {}).queue, agen_fifo ops⟩
+
+example : ([AgOp.request 0, .request 1, .complete, .request 2, .complete].foldl agStep {}).settled = [0, 1] := by decide
+
 -- a concrete program: p.then(f) registered before and after resolution, resolution with a promise (two extra turns)
 def demoBodies : List Body := [
   { tag := 0, res := .ret (.num 0), ops := [.newP 0, .thenP 0 (some 1) none 1, .resolved 2 (.num 7), .resolve 0 (.var 2), .thenP 2 (some 2) none 3, .print 9] },
